@@ -67,11 +67,31 @@ def beyond_value(rng, thr, neg):
     return dec(neg, 1, 20, rng.choice([2, 3, 4])) if (m, e) != (1, 20) else dec(neg, 3, 20, 2)
 
 
+BELOW = {(1, 20): [(5, 19), (99, 18)], (1, 10): [(9999999999, 0), (5, 9)], (1, 3): [(999, 0), (9995, -1)],
+         (1, 2): [(99, 0), (995, -1)], (64, 0): [(635, -1), (63, 0)], (16, 0): [(1575, -2), (15, 0)],
+         (4, 0): [(375, -2), (3, 0)], (25, -1): [(225, -2), (2, 0)]}
+
+
+def below_value(rng, thr, neg):
+    """a large FINITE literal just below the threshold (binary64-exact): it must stay a finite side"""
+    m, e = rng.choice(BELOW[thr])
+    return dec(neg, m, e, rng.randrange(NSTYLES))
+
+
+def wide_coef(rng):
+    """binary64-exact literals that are not binary32-exact (more than 24 significant bits)"""
+    m, e = rng.choice([(16777217, 0), (335544335, -1), (1234567895, -1), (2 ** 40 + 1, 0), (429496729725, -2),
+                       (16777217, 1), (2 ** 53 - 1, 0)])
+    return dec(rng.random() < 0.5, m, e, rng.randrange(NSTYLES))
+
+
 def side_value(rng, thr, neg_unbounded, p_unbounded):
     """a bound / constraint side: finite small dyadic, or beyond the threshold (either sign)"""
     if rng.random() < p_unbounded:
         neg = neg_unbounded if rng.random() < 0.8 else not neg_unbounded
         return beyond_value(rng, thr, neg)
+    if thr is not None and rng.random() < 0.1:
+        return below_value(rng, thr, rng.random() < 0.5)
     return dyadic(rng, -3, 3, maxa=2)
 
 
@@ -115,7 +135,7 @@ def model(rng, code, name=None):
     has_cons = ck not in "NB"
     m = (rng.choice([1, 1, 2, 3, 4]) if rng.random() > 0.06 else 0) if has_cons else 0
     thr_lit, thr = threshold(rng)
-    coef = lambda: dyadic(rng, -6, 6, nonzero=rng.random() < 0.9)
+    coef = lambda: wide_coef(rng) if rng.random() < 0.06 else dyadic(rng, -6, 6, nonzero=rng.random() < 0.9)
     q0 = []
     if ok != "L":
         q0 = [[i, j, coef()] for (i, j) in tri_entries(rng, n, ok == "D", 0.45)]
